@@ -26,7 +26,9 @@ EXHAUSTIVE = {"quick": True, "thorough": True}
 OVERRIDES = [None, "", "On", "on", "ON", "oN", "Off", "off", "OFF", "other", "1", "true", "on "]
 SECRET = "S3CR3T-T0K3N-9917"
 FAILS = ["none", "ctor", "before", "endpoint", "status", "after"]
-PATHS = {"hit": "/hit", "debuginfo": "/debug-info", "unknown": "/no/such", "listing": "/dir/"}
+PATHS = {"hit": "/hit", "debuginfo": "/debug-info", "unknown": "/no/such", "listing": "/dir/", "rx": "/rx/5",
+         "file": "/dir/f.txt", "postonly": "/post-only"}
+ENDPOINT_PATHS = ("hit", "rx")
 METHODS = ["GET", "HEAD", "POST", "DELETE", "BREW"]
 
 _st = {}
@@ -78,6 +80,8 @@ def setup():
         app.add_after_response(after)
         from poorwsgi import state
         app.set_route("/hit", hit, state.METHOD_ALL)
+        app.set_route("/rx/<n:int>", lambda req, n, _hit=hit: _hit(req), state.METHOD_ALL)
+        app.set_route("/post-only", hit, state.METHOD_POST)
         app.set_http_state(409, status409, state.METHOD_ALL)
         apps[attr] = app
     _st.update(apps=apps, root=root)
@@ -100,7 +104,7 @@ def generate(rng, tier):
                     continue
                 for fail in FAILS:
                     for pk in PATHS:
-                        if fail not in ("none", "ctor", "before", "after") and pk != "hit":
+                        if fail not in ("none", "ctor", "before", "after") and pk not in ENDPOINT_PATHS:
                             continue
                         for method in (METHODS if tier == "thorough" or (fail == "none" and pk == "debuginfo")
                                        else [rng.choice(METHODS), "GET"]):
@@ -206,7 +210,7 @@ def oracle(case):
         if pk == "debuginfo" and fail == "none" and t[7] in ("GET", "HEAD", "POST", "DELETE", "BREW"):
             if not status.startswith("200"):
                 out.append(Violation("c20-debuginfo-on", case, "debug is on but /debug-info answered %s" % status))
-        if fail in ("endpoint",) and pk == "hit" and status.startswith("500") and "Traceback" not in body:
+        if fail in ("endpoint",) and pk in ENDPOINT_PATHS and status.startswith("500") and "Traceback" not in body:
             out.append(Violation("c20-no-traceback", case, "debug is on but the 500 page has no traceback"))
     return out
 
